@@ -151,6 +151,21 @@ def runC16 (fields : List String) (obs : String) : String × String × String :=
      | _, _ => bad)
   -- a function whose one parameter is a tuple: the arms are tried in source order against the argument, literals
   -- (numbers, strings and booleans alike) compare by value, the first arm that matches gives the result
+  | ["fne", v, arms] =>
+    -- a function of one parameter of the enum red(f64) | green(f64) | blue: the first arm that matches runs; the
+    -- function is refused when it has no wildcard arm and leaves a variant without an arm
+    (match pV (toks v), (arms.splitOn ";;").mapM pFArm with
+     | some (src, []), some arms =>
+       let rec goE : List (P × E) → Except Err V
+         | [] => .error .noArm
+         | a :: rest => (match matchP false a.1 src [] with
+           | some env => evalE noSelf (env ++ [(nameCode "a", src)]) a.2
+           | none => goE rest)
+       let hasWild := arms.any (fun a => a.1 == P.sp SP.wild)
+       let covers := ["red", "green", "blue"].all (fun t => arms.any (fun a => match a.1 with | .enm t' _ => t' == t | _ => false))
+       let exp := if !hasWild && !covers then "err" else resText (goE arms)
+       (exp, (if obs == exp then "ok" else "bad:expected " ++ exp), "-")
+     | _, _ => bad)
   | ["fnt", _, v, arms] =>
     (match pV (toks v), (arms.splitOn ";;").mapM pFArm with
      | some (src, []), some arms =>
